@@ -287,6 +287,10 @@ def write_evidence(pid, mod, tier, seed, agg, wall, nviol, known_hit, notes):
     }
     os.makedirs(os.path.join(VERIF, 'evidence'), exist_ok=True)
     path = os.path.join(VERIF, 'evidence', pid + '.json')
+    if os.path.realpath(REPO) != '/repo':
+        # a run against a scratch worktree (seeded change) never overwrites the evidence of /repo itself
+        os.makedirs(os.path.join(VERIF, 'out', pid), exist_ok=True)
+        path = os.path.join(VERIF, 'out', pid, 'evidence-scratch-tree.json')
     tmp = path + '.tmp'
     with open(tmp, 'w') as f:
         json.dump(ev, f, indent=1, sort_keys=True, default=repr)
